@@ -43,3 +43,74 @@ package cmd
 //@ func isPositive[github.com/AdguardTeam/golibs/timeutil.Duration]
 //@   property C20
 //@   ensures ok == (v.Duration > 0)
+
+// validateProp calls its validator exactly once and wraps the error: its body
+// is used at the call sites (the validator argument is a bound method value).
+//@ func validateProp
+//@   inline
+
+// ---------------------------------------------------------------------------
+// Section validators: acceptance implies the conditions the constructors and
+// the request path rely on.
+
+//@ func (*rateLimitOptions).validate
+//@   property C20
+//@   ensures nil-section-rejected: o == nil ==> err != nil
+//@   ensures err == nil ==> o.Count > 0 && o.Interval.Duration > 0 && o.SubnetKeyLen > 0
+
+//@ func (*allowListConfig).validate
+//@   property C20
+//@   ensures nil-section-rejected: c == nil ==> err != nil
+//@   ensures err == nil ==> (c.Type == "backend" || c.Type == "consul") && c.RefreshIvl.Duration > 0
+
+//@ func (*connLimitConfig).validate
+//@   property C20
+//@   ensures nil-section-rejected: c == nil ==> err != nil
+//@   ensures thresholds-consistent: err == nil && c.Enabled ==> c.Stop >= 1 && c.Resume <= c.Stop
+
+//@ func (*ratelimitTCPConfig).validate
+//@   property C20
+//@   ensures nil-section-rejected: c == nil ==> err != nil
+//@   ensures err == nil ==> c.MaxPipelineCount > 0
+
+//@ func (*ratelimitQUICConfig).validate
+//@   property C20
+//@   ensures nil-section-rejected: c == nil ==> err != nil
+//@   ensures err == nil ==> c.MaxStreamsPerPeer > 0
+
+// RLOK: what NewBackoff, subnetKey, CountResponses and the connection and
+// pipeline limiters need from an accepted rate-limit section.
+//@ pred RLOK(c *rateLimitConfig) = c != nil && c.Allowlist != nil && c.ConnectionLimit != nil && c.IPv4 != nil && c.IPv6 != nil &&
+//@      c.QUIC != nil && c.TCP != nil && c.ResponseSizeEstimate > 0 && c.BackoffCount > 0 &&
+//@      c.BackoffDuration.Duration > 0 && c.BackoffPeriod.Duration > 0 &&
+//@      c.IPv4.Count > 0 && c.IPv4.Interval.Duration > 0 && 0 < c.IPv4.SubnetKeyLen && c.IPv4.SubnetKeyLen <= 32 &&
+//@      c.IPv6.Count > 0 && c.IPv6.Interval.Duration > 0 && 0 < c.IPv6.SubnetKeyLen && c.IPv6.SubnetKeyLen <= 128 &&
+//@      (c.ConnectionLimit.Enabled ==> c.ConnectionLimit.Stop >= 1 && c.ConnectionLimit.Resume <= c.ConnectionLimit.Stop) &&
+//@      c.TCP.MaxPipelineCount > 0 && c.QUIC.MaxStreamsPerPeer > 0
+
+//@ func (*rateLimitConfig).validate
+//@   property C20
+//@   ensures nil-section-rejected: c == nil ==> err != nil
+//@   ensures accepted-is-serviceable: err == nil ==> RLOK(c)
+
+//@ func (*rateLimitConfig).toInternal
+//@   property C20
+//@   requires RLOK(c)
+//@   ensures conf != nil && conf.ResponseSizeEstimate == c.ResponseSizeEstimate && conf.Count == c.BackoffCount &&
+//@           conf.IPv4Count == c.IPv4.Count && conf.IPv4SubnetKeyLen == c.IPv4.SubnetKeyLen &&
+//@           conf.IPv6Count == c.IPv6.Count && conf.IPv6SubnetKeyLen == c.IPv6.SubnetKeyLen &&
+//@           conf.IPv4Interval == c.IPv4.Interval.Duration && conf.IPv6Interval == c.IPv6.Interval.Duration &&
+//@           conf.Duration == c.BackoffDuration.Duration && conf.Period == c.BackoffPeriod.Duration && conf.Allowlist == al
+
+//@ func (*ttlOverride).validate
+//@   property C20
+//@   ensures nil-section-rejected: c == nil ==> err != nil
+//@   ensures err == nil ==> c.Min.Duration > 0
+
+// An enabled ECS cache builds two LRU caches, each of which needs a positive
+// size (gcache panics on size <= 0).
+//@ func (*cacheConfig).validate
+//@   property C20
+//@   ensures nil-section-rejected: c == nil ==> err != nil
+//@   ensures accepted-is-serviceable: err == nil ==> (c.Type == "simple" || c.Type == "ecs") && c.Size >= 0 &&
+//@             (c.Type == "ecs" && c.Size > 0 ==> c.ECSSize > 0) && c.TTLOverride != nil && c.TTLOverride.Min.Duration > 0
